@@ -274,6 +274,143 @@ func runC18(e *Engine, r *Report, tier string) {
 		r.Fail("R1b", "sites", "", fmt.Sprintf("UNRESOLVED-ANCHOR: only %d cached-context sites with a used write-back found", nsites))
 	}
 
+	// R3: an EVM call's response is inspected for failure before the sub-step is reported successful
+	r.Rule("R3", "EVM call: success is reported only after `!resp.Failed()`", 2, "calls returning *MsgEthereumTxResponse in consensus code")
+	// FC: functions returning (*MsgEthereumTxResponse, error) whose nil-error returns all imply !resp.Failed()
+	isRespFn := func(f *ssa.Function) bool {
+		rs := f.Signature.Results()
+		return rs.Len() == 2 && strings.HasSuffix(rs.At(0).Type().String(), "MsgEthereumTxResponse") && isErrorType(rs.At(1).Type())
+	}
+	fc := map[*ssa.Function]bool{}
+	for changed := true; changed; {
+		changed = false
+		for _, f := range e.Funcs {
+			if fc[f] || !isRespFn(f) || f.Blocks == nil {
+				continue
+			}
+			okAll := true
+			n := 0
+			for _, ret := range SuccessReturns(f) {
+				n++
+				rv := ret.Results[0]
+				if isNilConst(rv) {
+					continue
+				}
+				okRet := false
+				// guarded by !Failed on this very response
+				for _, g := range GuardsOf(ret) {
+					ci, ok := NormCond(g)
+					if ok && ci.Call != nil && ci.Op == "!call:Failed" {
+						if a := callArgs(ci.Call); len(a) == 1 && a[0] == rv {
+							okRet = true
+						}
+					}
+				}
+				// or comes from an FC callee (its error checked: we are on a success return after it)
+				if ex, ok := rv.(*ssa.Extract); ok {
+					if cc0, ok := ex.Tuple.(*ssa.Call); ok {
+						for _, cal := range e.calleesOf(cc0) {
+							if fc[cal] {
+								okRet = true
+							}
+						}
+					}
+				}
+				if !okRet {
+					okAll = false
+				}
+			}
+			if okAll && n > 0 {
+				fc[f] = true
+				changed = true
+			}
+		}
+	}
+	for _, fn := range e.Funcs {
+		if isAuxPkg(fnPkgPath(fn)) || strings.Contains(fnPkgPath(fn), "/server") || strings.HasSuffix(fnPkgPath(fn), "/types") {
+			continue
+		}
+		allCalls(fn, func(c ssa.CallInstruction) {
+			res := c.Common().Signature().Results()
+			if res.Len() != 2 || !strings.HasSuffix(res.At(0).Type().String(), "MsgEthereumTxResponse") || !isErrorType(res.At(1).Type()) {
+				return
+			}
+			// callee already converts a failed response into an error
+			if cs := e.calleesOf(c); len(cs) > 0 {
+				all := true
+				for _, cal := range cs {
+					if !fc[cal] {
+						all = false
+					}
+				}
+				if all {
+					if okh, _ := errorHandled(c); okh {
+						r.Ok("R3", e.FnKey(fn)+" "+callName(c), e.InstrPos(c), "callee turns a failed EVM response into an error; error checked here")
+					} else {
+						r.Fail("R3", e.FnKey(fn)+" "+callName(c), e.InstrPos(c), "error of an EVM call helper is ignored")
+					}
+					return
+				}
+			}
+			v, ok := c.(ssa.Value)
+			if !ok {
+				return
+			}
+			var resp ssa.Value
+			for _, ref := range *v.Referrers() {
+				if ex, ok := ref.(*ssa.Extract); ok && ex.Index == 0 {
+					resp = ex
+				}
+			}
+			site := e.FnKey(fn) + " " + callName(c)
+			// the response is handed to the caller unchanged: the caller is a site itself
+			passedUp := false
+			if resp != nil {
+				for _, ref := range *resp.Referrers() {
+					if _, ok := ref.(*ssa.Return); ok {
+						passedUp = true
+					}
+				}
+			}
+			if fn.Signature.Results().Len() > 0 && strings.HasSuffix(fn.Signature.Results().At(0).Type().String(), "MsgEthereumTxResponse") && (passedUp || resp == nil) {
+				r.Ok("R3", site, e.InstrPos(c), "response returned to the caller (checked there)")
+				return
+			}
+			if resp == nil {
+				r.Fail("R3", site, e.InstrPos(c), "the EVM response is discarded: a failed (reverted / out-of-gas) call is indistinguishable from success")
+				return
+			}
+			// every success return reachable after the call must be dominated by `Failed()` == false on this response
+			bad := ""
+			for _, ret := range SuccessReturns(fn) {
+				if !canReach(c, ret) {
+					continue
+				}
+				okRet := false
+				for _, g := range GuardsOf(ret) {
+					ci, ok := NormCond(g)
+					if !ok || ci.Call == nil {
+						continue
+					}
+					if ci.Op == "!call:Failed" {
+						a := callArgs(ci.Call)
+						if len(a) == 1 && a[0] == resp {
+							okRet = true
+						}
+					}
+				}
+				if !okRet {
+					bad = e.InstrPos(ret)
+				}
+			}
+			if bad != "" {
+				r.Fail("R3", site, bad, "a success return is reachable after the EVM call without `!resp.Failed()`: a VM failure that is not the one tested (e.g. out of gas vs. revert) is reported as success and the cached writes are committed")
+			} else {
+				r.Ok("R3", site, e.InstrPos(c), "success requires !resp.Failed()")
+			}
+		})
+	}
+
 	// R1d recover sites
 	nrec := 0
 	for _, fn := range e.Funcs {
